@@ -459,7 +459,13 @@ func (r *Run) fail(viol []*Failure, noEvidence bool, cov map[string]interface{})
 		replayDir = filepath.Join(rd, r.cfg.ID)
 	}
 	os.MkdirAll(replayDir, 0o755)
-	sort.SliceStable(viol, func(i, j int) bool { return viol[i].Name < viol[j].Name })
+	sort.SliceStable(viol, func(i, j int) bool {
+		// obligations that were generated and failed come first; bookkeeping failures (names missing from the lock) last
+		if (viol[i].Obl != nil) != (viol[j].Obl != nil) {
+			return viol[i].Obl != nil
+		}
+		return viol[i].Name < viol[j].Name
+	})
 	const maxReported = 25
 	if len(viol) > maxReported {
 		fmt.Printf("govc: %d failed obligations; reporting the first %d (all are listed in the evidence file)\n", len(viol), maxReported)
